@@ -140,7 +140,7 @@ def main(argv=None):
                 undecided.append((r["scenario"], [name, "solver: " + str(ob.get("detail"))]))
 
     # findings that no longer fail: report so the entry can be retired (not an error)
-    stale = [e for e in finds if e["obligation"] not in {k for k, _ in known_hits}]
+    stale = [e for e in finds if e["obligation"] not in {k for k, _ in known_hits}] if not args.only else []
 
     # ---- replay of violations ------------------------------------------------------------
     lines = []
